@@ -82,6 +82,25 @@ func runC14(c *Ctx) {
 			return &r
 		})
 
+	gK.msmRaw = c14MsmRawOf[*k256.Point, k256Impl.Point, *k256Impl.Point](func(p *k256.Point) *k256Impl.Point { return &p.V },
+		func(v *k256Impl.Point) *k256.Point { var r k256.Point; r.V = *v; return &r })
+	gP.msmRaw = c14MsmRawOf[*p256.Point, p256Impl.Point, *p256Impl.Point](func(p *p256.Point) *p256Impl.Point { return &p.V },
+		func(v *p256Impl.Point) *p256.Point { var r p256.Point; r.V = *v; return &r })
+	gPa.msmRaw = c14MsmRawOf[*pasta.PallasPoint, pastaImpl.PallasPoint, *pastaImpl.PallasPoint](func(p *pasta.PallasPoint) *pastaImpl.PallasPoint { return &p.V },
+		func(v *pastaImpl.PallasPoint) *pasta.PallasPoint { var r pasta.PallasPoint; r.V = *v; return &r })
+	gVe.msmRaw = c14MsmRawOf[*pasta.VestaPoint, pastaImpl.VestaPoint, *pastaImpl.VestaPoint](func(p *pasta.VestaPoint) *pastaImpl.VestaPoint { return &p.V },
+		func(v *pastaImpl.VestaPoint) *pasta.VestaPoint { var r pasta.VestaPoint; r.V = *v; return &r })
+	gG1.msmRaw = c14MsmRawOf[*bls12381.PointG1, bls12381Impl.G1Point, *bls12381Impl.G1Point](func(p *bls12381.PointG1) *bls12381Impl.G1Point { return &p.V },
+		func(v *bls12381Impl.G1Point) *bls12381.PointG1 { var r bls12381.PointG1; r.V = *v; return &r })
+	gG2.msmRaw = c14MsmRawOf[*bls12381.PointG2, bls12381Impl.G2Point, *bls12381Impl.G2Point](func(p *bls12381.PointG2) *bls12381Impl.G2Point { return &p.V },
+		func(v *bls12381Impl.G2Point) *bls12381.PointG2 { var r bls12381.PointG2; r.V = *v; return &r })
+	gEd.msmRaw = c14MsmRawOf[*edwards25519.PrimeSubGroupPoint, edwards25519Impl.Point, *edwards25519Impl.Point](func(p *edwards25519.PrimeSubGroupPoint) *edwards25519Impl.Point { return &p.V },
+		func(v *edwards25519Impl.Point) *edwards25519.PrimeSubGroupPoint {
+			var r edwards25519.PrimeSubGroupPoint
+			r.V = *v
+			return &r
+		})
+
 	q := 1
 	if c.Thorough() {
 		q = 8
@@ -96,8 +115,39 @@ func runC14(c *Ctx) {
 	runGroup(c, mkEdFull(c), 8, q)
 	runGroup(c, mkCurve25519(c), 9, q)
 
+	// ---- windowed ladder and bucket MSM at every threshold of mul.go (c14_window.go)
+	gEdFull, gC25519 := mkEdFull(c), mkCurve25519(c)
+	dense := func(maxK, longFrom int) c14WindowPlan { return c14WindowPlan{maxK: maxK, longFrom: longFrom, keep: 1} }
+	sparse := func(maxK int) c14WindowPlan {
+		return c14WindowPlan{maxK: maxK, longFrom: 32, fullAt: []int{8, 16}, keep: 4}
+	}
+	if c.Thorough() {
+		c14RunParallel(c, 4,
+			func(s *Ctx) { runWindow(s, gK, 1, dense(16, 1<<17)) },
+			func(s *Ctx) { runWindow(s, gEd, 7, dense(16, 1<<13)) },
+			func(s *Ctx) { runWindow(s, gP, 2, dense(16, 1<<12)) },
+			func(s *Ctx) { runWindow(s, gPa, 3, dense(16, 1<<12)) },
+			func(s *Ctx) { runWindow(s, gVe, 4, dense(16, 1<<12)) },
+			func(s *Ctx) { runWindow(s, gG1, 5, dense(16, 1<<11)) },
+			func(s *Ctx) { runWindow(s, gG2, 6, dense(16, 1<<10)) },
+			func(s *Ctx) { runWindow(s, gEdFull, 8, dense(13, 1<<10)) },
+			func(s *Ctx) { runWindow(s, gC25519, 9, dense(0, 0)) })
+	} else {
+		c14RunParallel(c, 4,
+			func(s *Ctx) {
+				runWindow(s, gK, 1, c14WindowPlan{maxK: 16, longFrom: 1 << 12, keep: 1, hugeFrom: 1<<14 - 1})
+			},
+			func(s *Ctx) { runWindow(s, gEd, 7, sparse(12)) },
+			func(s *Ctx) { runWindow(s, gP, 2, sparse(11)) },
+			func(s *Ctx) { runWindow(s, gPa, 3, sparse(11)) },
+			func(s *Ctx) { runWindow(s, gVe, 4, sparse(11)) },
+			func(s *Ctx) { runWindow(s, gG1, 5, sparse(11)) },
+			func(s *Ctx) { runWindow(s, gG2, 6, sparse(11)) },
+			func(s *Ctx) { runWindow(s, gEdFull, 8, sparse(11)) },
+			func(s *Ctx) { runWindow(s, gC25519, 9, c14WindowPlan{keep: 4}) })
+	}
+
 	// ---- raw projective / extended formulas at the impl level
-	
 
 	c14WProj(c, "k256", 11, q, implSeeds(c.Seed, gK, func(p *k256.Point) *k256Impl.Point { return &p.V }))
 	c14WProj(c, "p256", 12, q, implSeeds(c.Seed, gP, func(p *p256.Point) *p256Impl.Point { return &p.V }))
@@ -143,6 +193,10 @@ func mkEdFull(c *Ctx) *c14Group[*edwards25519.Point] {
 			}
 			return cv.MultiScalarMul(scs, ps)
 		},
+		msmRaw: c14MsmRawOf[*edwards25519.Point, edwards25519Impl.Point, *edwards25519Impl.Point](func(p *edwards25519.Point) *edwards25519Impl.Point { return &p.V },
+			func(v *edwards25519Impl.Point) *edwards25519.Point { var r edwards25519.Point; r.V = *v; return &r }),
+		auSmul: c14AuSmul[*edwards25519.Point],
+		auMsm:  c14AuMsm[*edwards25519.Point],
 	}
 	// small-order points: [n]·P for curve points P outside the prime subgroup
 	g.extra = edTorsion(g, func(y uint64) *edwards25519.Point {
